@@ -9,7 +9,7 @@
    answers mem_step accepts, ends in Q.  Each function gets a wp statement whose postcondition is
    the string model's answer ([post]); [interp_wp] carries a wp statement to any reader that the
    reference simulates. *)
-From BS Require Import Base MpSpec MpModel MpLemmas MpReader MpTs StreamIStream StreamSpec StreamModel
+From BS Require Import Base MpSpec MpModel MpLemmas MpReader MpTs MpScopeModel MpScopeTyped StreamIStream StreamSpec StreamModel
   StreamLemmas StreamBsrProofs MpStreamModel.
 From Coq Require Import ZifyBool ZifyN ZifyNat.
 Local Open Scope N_scope.
@@ -144,6 +144,47 @@ Proof.
   unfold get_value. destruct (take k d) as [[s r']|] eqn:Et; [|discriminate].
   intros E. injection E as _ <-. apply take_length in Et. exact Et.
 Qed.
+
+
+(* ================================================================== where SkipValue stands when it throws *)
+
+(* MpScopeModel.skip_at_impl is the string reader's SkipValueImpl with the reader position at the throw
+   (the scope destructors go on from there).  The same for the stream reader: its ReadExtSize CONSUMES
+   the length field, so when the payload of a str / bin / ext 8,16,32 is cut short it stands behind
+   the length field, not behind the type byte.  Everything else is skip_at_impl. *)
+Fixpoint sskip_at_impl (fuel : nat) (rest : list N) {struct fuel} : ares :=
+  match fuel with
+  | O => AFuel
+  | S f =>
+    match rest with
+    | [] => AErr EParse rest
+    | b :: r1 =>
+      let m := byte_meta b in
+      if vtype_eqb (m_ty m) TUnknown then AErr EParse r1 else
+      let hdr : option (N * list N) :=                   (* extSize, and the position after ReadExtSize *)
+        if negb (m_fixed m =? 0) then Some (m_fixed m, r1)
+        else if negb (m_ext m =? 0) then get_value (m_ext m) r1
+        else Some (0, r1) in
+      match hdr with
+      | None => AErr EParse r1
+      | Some (ext0, r2) =>
+        let size := if is_sized (m_ty m) then m_data m + ext0 else m_data m in
+        let ext := if is_sized (m_ty m) then 0 else ext0 in
+        match take size r2 with
+        | None => AErr EParse r2
+        | Some (_, r3) =>
+          if ext =? 0 then AOk r3
+          else match m_ty m with
+               | TMap => skip_rep_at (sskip_at_impl f) f (2 * ext) r3
+               | TArr => skip_rep_at (sskip_at_impl f) f ext r3
+               | _ => AOk r3
+               end
+        end
+      end
+    end
+  end.
+
+Definition sskip_at (rest : list N) : ares := sskip_at_impl (S (length rest)) rest.
 
 (* ================================================================== suffixes of the data *)
 
@@ -574,6 +615,110 @@ Section Wp.
       + intros Et m'. rewrite Et. reflexivity.
   Qed.
 
+
+
+  (* ---------------------------------------------------------------- SkipValueImpl, with the position at the throw *)
+
+  Definition apost (x : ares) (a : sr unit) (m' : mem) : Prop :=
+    match x with
+    | AOk r => a = QOk tt /\ m' = st r /\ Suffix r
+    | AErr e r_at => a = QErr e /\ m_pos m' = (length data - length r_at)%nat
+    | AFuel => a = QFuel
+    end.
+
+  Lemma wp_skip_rep_at (step : prog (sr unit)) (sstep : list N -> ares) :
+    (forall d, Suffix d -> wp step (st d) (apost (sstep d))) ->
+    forall g cnt d, Suffix d -> wp (mps_skip_rep step g cnt) (st d) (apost (skip_rep_at sstep g cnt d)).
+  Proof.
+    intros Hstep. induction g as [|g IH]; intros cnt d HS; cbn [mps_skip_rep skip_rep_at].
+    - destruct (cnt =? 0); cbn [wp apost]; [auto | reflexivity].
+    - destruct (cnt =? 0); [cbn [wp apost]; auto|].
+      apply wp_qbind. eapply wp_mono; [|apply Hstep; exact HS].
+      intros a m' Ha. destruct (sstep d) as [r|e r_at|]; cbn [apost] in Ha.
+      + destruct Ha as [-> [-> HSr]]. apply IH. exact HSr.
+      + destruct Ha as [-> Hp]. cbn [apost]. auto.
+      + subst a. reflexivity.
+  Qed.
+
+  Lemma wp_skip_tail_at (children : prog (sr unit)) size d (Q : sr unit -> mem -> Prop) : Suffix d -> size < 0x400000000 ->
+    (forall s r, take size d = Some (s, r) -> Suffix r -> wp children (st r) Q) ->
+    (take size d = None -> Q (QErr EParse) (mkM (length data - length d) true)) ->
+    wp (if size =? 0 then children
+        else get_position (fun p => set_position (p + size) (fun ok => if ok then children else Ret (QErr EParse))))
+       (st d) Q.
+  Proof.
+    intros HS Hsz H1 H2. destruct (N.eqb_spec size 0) as [->|Hs0].
+    - apply (H1 [] d); [apply take_0 | exact HS].
+    - apply wp_advance; try assumption.
+  Qed.
+
+  Theorem wp_skip_impl_at : forall f d, Suffix d -> wp (mps_skip_impl f) (st d) (apost (sskip_at_impl f d)).
+  Proof.
+    induction f as [|f IH]; intros d HS; [reflexivity|].
+    cbn [mps_skip_impl sskip_at_impl]. apply wp_read_byte; [exact HS|].
+    destruct d as [|b r1]; cbn [hd_error tl].
+    { cbn [wp apost st m_pos]. auto. }
+    pose proof (suffix_tl _ _ HS) as HS1.
+    pose proof (byte_meta_ok b) as [Mext [Mdata [Mfix _]]].
+    set (m := byte_meta b) in *.
+    destruct (vtype_eqb (m_ty m) TUnknown); [cbn [wp apost st m_pos]; auto|].
+    apply wp_qbind.
+    assert (Children : forall ext r2, Suffix r2 ->
+      wp (if ext =? 0 then Ret (QOk tt)
+          else match m_ty m with
+               | TMap => mps_skip_rep (mps_skip_impl f) f (2 * ext)
+               | TArr => mps_skip_rep (mps_skip_impl f) f ext
+               | _ => Ret (QOk tt)
+               end) (st r2)
+         (apost (if ext =? 0 then AOk r2
+                 else match m_ty m with
+                      | TMap => skip_rep_at (sskip_at_impl f) f (2 * ext) r2
+                      | TArr => skip_rep_at (sskip_at_impl f) f ext r2
+                      | _ => AOk r2
+                      end))).
+    { intros ext r2 HS2. destruct (ext =? 0); [cbn [wp apost]; auto|].
+      destruct (m_ty m); try (cbn [wp apost]; auto); apply wp_skip_rep_at; auto. }
+    assert (Tail : forall ext0 r2, Suffix r2 -> ext0 < 0x100000000 ->
+      wp (let size := if is_sized (m_ty m) then m_data m + ext0 else m_data m in
+          let ext := if is_sized (m_ty m) then 0 else ext0 in
+          let children :=
+            if ext =? 0 then Ret (QOk tt)
+            else match m_ty m with
+                 | TMap => mps_skip_rep (mps_skip_impl f) f (2 * ext)
+                 | TArr => mps_skip_rep (mps_skip_impl f) f ext
+                 | _ => Ret (QOk tt)
+                 end in
+          if size =? 0 then children
+          else get_position (fun p => set_position (p + size) (fun ok => if ok then children else Ret (QErr EParse))))
+         (st r2)
+         (apost (let size := if is_sized (m_ty m) then m_data m + ext0 else m_data m in
+                 let ext := if is_sized (m_ty m) then 0 else ext0 in
+                 match take size r2 with
+                 | None => AErr EParse r2
+                 | Some (_, r3) =>
+                   if ext =? 0 then AOk r3
+                   else match m_ty m with
+                        | TMap => skip_rep_at (sskip_at_impl f) f (2 * ext) r3
+                        | TArr => skip_rep_at (sskip_at_impl f) f ext r3
+                        | _ => AOk r3
+                        end
+                 end))).
+    { intros ext0 r2 HS2 Hext. cbv zeta.
+      apply wp_skip_tail_at; [exact HS2 | destruct (is_sized (m_ty m)); lia | |].
+      - intros s r3 Et HS3. rewrite Et. apply Children. exact HS3.
+      - intros Et. rewrite Et. cbn [apost m_pos]. auto. }
+    destruct (m_fixed m =? 0) eqn:Efix; cbn [negb].
+    - destruct (m_ext m =? 0) eqn:Eext; cbn [negb].
+      + cbn [wp]. apply (Tail 0 r1 HS1). lia.
+      + apply N.eqb_neq in Eext.
+        apply wp_read_ext_size; [exact HS1 | lia | |].
+        * intros v r2 Eg HS2. rewrite Eg.
+          assert (Hk4 : m_ext m <= 4) by lia.
+          pose proof (get_value_bound _ _ _ _ (suffix_bytes _ HS1) Hk4 Eg) as Hv.
+          apply (Tail v r2 HS2 Hv).
+        * intros Eg. rewrite Eg. cbn [apost st m_pos]. auto.
+    - cbn [wp]. apply (Tail (m_fixed m) r1 HS1). lia.
+  Qed.
 
   (* ---------------------------------------------------------------- the typed reads *)
 
@@ -1102,3 +1247,450 @@ Section Wp.
 
 End Wp.
 
+
+(* ================================================================== closed statements *)
+
+Definition bytes_ok (data : list N) : Prop := Forall (fun b => b < 256) data.
+
+(* the chunked reader on a seekable stream is a reader the reference simulates *)
+Definition BsrRel (K : nat) (data : list N) (s : bsr) (m : mem) : Prop :=
+  Rel K data s m /\ is_seekable (b_is s) = true.
+
+Lemma bsr_sim K data : (0 < K)%nat -> fits_streamoff data -> forall s m op, BsrRel K data s m -> op_sizet op ->
+  exists r s' m', bsr_step K s op = Ok (r, s') /\ mem_step K data m op r = Some m' /\ BsrRel K data s' m'.
+Proof.
+  intros HK Hl s m op [HR Hs] Hw.
+  destruct (step_refines K HK data Hl s m op HR Hw (fun _ => or_introl Hs)) as [r [s' [m' [E1 [E2 [R' Sk]]]]]].
+  exists r, s', m'. split; [exact E1|]. split; [exact E2|]. split; [exact R' | congruence].
+Qed.
+
+Lemma st_data data : st data data = mem_start.
+Proof. unfold st, mem_start. rewrite Nat.sub_diag. reflexivity. Qed.
+
+
+(* ---- the two at-throw positions compared ---- *)
+
+(* first byte of a str / bin / ext whose length comes in a length field *)
+Definition sized_len (b : N) : bool :=
+  let m := byte_meta b in is_sized (m_ty m) && (m_fixed m =? 0) && negb (m_ext m =? 0).
+
+Lemma byte_meta_lenfield b : let m := byte_meta b in
+  m_fixed m = 0 -> m_ext m <> 0 -> is_sized (m_ty m) = false -> m_data m = 0.
+Proof.
+  unfold byte_meta. split_first_byte b.
+  all: cbn [m_ty m_fixed m_data m_ext is_sized]; intros; try reflexivity; try discriminate; try lia.
+Qed.
+
+(* same outcome; at a throw the stream reader stands where the string reader stands, or behind the
+   complete length field of the str / bin / ext whose payload is cut short *)
+Definition at_rel (d : list N) (x y : ares) : Prop :=
+  match x, y with
+  | AOk r, AOk r' => r = r'
+  | AErr e a, AErr e' a' =>
+      e = e' /\ (a = a' \/ exists pre b v, d = pre ++ b :: a' /\ sized_len b = true /\
+                                           get_value (m_ext (byte_meta b)) a' = Some (v, a))
+  | AFuel, AFuel => True
+  | _, _ => False
+  end.
+
+Lemma at_rel_lift p d x y : at_rel d x y -> at_rel (p ++ d) x y.
+Proof.
+  destruct x as [r|e a|], y as [r'|e' a'|]; cbn [at_rel]; try tauto.
+  intros [He [H|[pre [b [v [Hd [Hs Hg]]]]]]]; split; try exact He; [left; exact H|].
+  right. exists (p ++ pre), b, v. rewrite Hd, app_assoc. auto.
+Qed.
+
+Lemma skip_rep_suffix (step : list N -> sres) :
+  (forall d r, step d = SOk r -> exists p, d = p ++ r) ->
+  forall g cnt d r, skip_rep step g cnt d = SOk r -> exists p, d = p ++ r.
+Proof.
+  intros Hs. induction g as [|g IH]; intros cnt d r H; cbn [skip_rep] in H.
+  - destruct (cnt =? 0); [injection H as <-; exists []; reflexivity | discriminate].
+  - destruct (cnt =? 0); [injection H as <-; exists []; reflexivity|].
+    destruct (step d) as [r1| |] eqn:E1; try discriminate.
+    apply Hs in E1. destruct E1 as [p1 ->]. apply IH in H. destruct H as [p2 ->].
+    exists (p1 ++ p2). rewrite app_assoc. reflexivity.
+Qed.
+
+Lemma skip_impl_suffix : forall f d r, skip_impl f d = SOk r -> exists p, d = p ++ r.
+Proof.
+  induction f as [|f IH]; intros d r H; [discriminate|].
+  destruct d as [|b d]; [discriminate|]. rewrite skip_impl_by in H.
+  pose proof (skip_rep_suffix (skip_impl f) IH) as Hrep.
+  assert (G : exists p, d = p ++ r).
+  { destruct (classify b); cbn [skip_by] in H; unfold get_value in H.
+    all: repeat match type of H with
+         | context [match take ?k ?dd with _ => _ end] =>
+             let E := fresh "ET" in destruct (take k dd) as [[? ?]|] eqn:E; [apply take_some in E; destruct E as [E _]|]
+         end; try discriminate.
+    all: try (injection H as <-; eexists; eassumption).
+    all: try (apply Hrep in H; exact H).
+    all: try (apply Hrep in H; destruct H as [p2 ->]; subst d; eexists; rewrite app_assoc; reflexivity).
+    all: try (injection H as <-; exists []; reflexivity). }
+  destruct G as [p ->]. exists (b :: p). reflexivity.
+Qed.
+
+Lemma skip_at_impl_suffix f d r : skip_at_impl f d = AOk r -> exists p, d = p ++ r.
+Proof.
+  intros H. pose proof (skip_at_forget f d) as F. rewrite H in F. cbn [forget] in F.
+  eapply skip_impl_suffix. symmetry. exact F.
+Qed.
+
+Lemma skip_rep_at_rel (s1 s2 : list N -> ares) :
+  (forall d, at_rel d (s1 d) (s2 d)) ->
+  (forall d r, s2 d = AOk r -> exists p, d = p ++ r) ->
+  forall g cnt d, at_rel d (skip_rep_at s1 g cnt d) (skip_rep_at s2 g cnt d).
+Proof.
+  intros Hrel Hsuf. induction g as [|g IH]; intros cnt d; cbn [skip_rep_at].
+  - destruct (cnt =? 0); cbn [at_rel]; auto.
+  - destruct (cnt =? 0); [cbn [at_rel]; reflexivity|].
+    pose proof (Hrel d) as H. destruct (s1 d) as [r|e a|], (s2 d) as [r'|e' a'|] eqn:E2; cbn [at_rel] in H; try contradiction.
+    + subst r'. destruct (Hsuf d r E2) as [p ->]. apply at_rel_lift. apply IH.
+    + exact H.
+    + exact I.
+Qed.
+
+Theorem skip_at_rel : forall f d, at_rel d (sskip_at_impl f d) (skip_at_impl f d).
+Proof.
+  induction f as [|f IH]; intros d; [exact I|].
+  cbn [sskip_at_impl skip_at_impl]. destruct d as [|b r1]; [cbn [at_rel]; auto|].
+  pose proof (byte_meta_lenfield b) as Mlf. cbv zeta in Mlf.
+  set (m := byte_meta b) in *.
+  destruct (vtype_eqb (m_ty m) TUnknown); [cbn [at_rel]; auto|].
+  assert (Children : forall ext r3 p, b :: r1 = p ++ r3 ->
+    at_rel (b :: r1)
+      (if ext =? 0 then AOk r3
+       else match m_ty m with
+            | TMap => skip_rep_at (sskip_at_impl f) f (2 * ext) r3
+            | TArr => skip_rep_at (sskip_at_impl f) f ext r3
+            | _ => AOk r3
+            end)
+      (if ext =? 0 then AOk r3
+       else match m_ty m with
+            | TMap => skip_rep_at (skip_at_impl f) f (2 * ext) r3
+            | TArr => skip_rep_at (skip_at_impl f) f ext r3
+            | _ => AOk r3
+            end)).
+  { intros ext r3 p Hp. destruct (ext =? 0); [reflexivity|].
+    destruct (m_ty m); try reflexivity; rewrite Hp; apply at_rel_lift;
+      apply skip_rep_at_rel; try exact IH; apply skip_at_impl_suffix. }
+  (* the same header on both sides, up to where the length field is accounted for *)
+  destruct (m_fixed m =? 0) eqn:Efix; cbn [negb].
+  - destruct (m_ext m =? 0) eqn:Eext; cbn [negb].
+    + replace (if is_sized (m_ty m) then m_data m + 0 else m_data m) with (m_data m)
+        by (destruct (is_sized (m_ty m)); lia).
+      destruct (take (m_data m) r1) as [[s r3]|] eqn:Et; [|cbn [at_rel]; auto].
+      apply take_some in Et. destruct Et as [Et _]. apply (Children _ r3 (b :: s)). rewrite Et. reflexivity.
+    + apply N.eqb_eq in Efix. apply N.eqb_neq in Eext.
+      destruct (get_value (m_ext m) r1) as [[v r2]|] eqn:Eg; [|cbn [at_rel]; auto].
+      set (size := if is_sized (m_ty m) then m_data m + v else m_data m).
+      replace (if is_sized (m_ty m) then m_data m + m_ext m + v else m_data m + m_ext m)
+        with (m_ext m + size) by (subst size; destruct (is_sized (m_ty m)); lia).
+      rewrite (take_after_header _ size _ _ _ Eg).
+      destruct (take size r2) as [[s r3]|] eqn:Et.
+      * pose proof Eg as Eg'. unfold get_value in Eg'. destruct (take (m_ext m) r1) as [[lb r2']|] eqn:El; [|discriminate].
+        assert (r2' = r2) by congruence. subst r2'.
+        apply take_some in Et. destruct Et as [Et _]. apply take_some in El. destruct El as [El _].
+        apply (Children _ r3 (b :: lb ++ s)). rewrite El, Et. cbn [app]. rewrite <- app_assoc. reflexivity.
+      * (* the payload is cut short *)
+        destruct (is_sized (m_ty m)) eqn:Esz.
+        -- cbn [at_rel]. split; [reflexivity|]. right. exists [], b, v. split; [reflexivity|]. split; [|exact Eg].
+           unfold sized_len. fold m. rewrite Esz, Efix. cbn [andb N.eqb]. apply negb_true_iff. apply N.eqb_neq. exact Eext.
+        -- subst size. rewrite (Mlf Efix Eext eq_refl) in Et. rewrite take_0 in Et. discriminate.
+  - destruct (take (if is_sized (m_ty m) then m_data m + m_fixed m else m_data m) r1) as [[s r3]|] eqn:Et;
+      [|cbn [at_rel]; auto].
+    apply take_some in Et. destruct Et as [Et _]. apply (Children _ r3 (b :: s)). rewrite Et. reflexivity.
+Qed.
+
+(* the class, decided from the string reader's answer alone: it threw right behind the type byte of a
+   str / bin / ext 8,16,32 whose length field is complete *)
+Definition len_field_cut (f : nat) (d : list N) : bool :=
+  match skip_at_impl f d with
+  | AErr _ r' =>
+    match nth_error d (length d - length r' - 1) with
+    | Some b => sized_len b && match get_value (m_ext (byte_meta b)) r' with Some _ => true | None => false end
+    | None => false
+    end
+  | _ => false
+  end.
+
+Theorem skip_throw_outside f d : len_field_cut f d = false -> sskip_at_impl f d = skip_at_impl f d.
+Proof.
+  intros Hc. pose proof (skip_at_rel f d) as H. unfold len_field_cut in Hc.
+  destruct (sskip_at_impl f d) as [r|e a|], (skip_at_impl f d) as [r'|e' a'|]; cbn [at_rel] in H; try contradiction.
+  - congruence.
+  - destruct H as [-> [->|[pre [b [v [Hd [Hs Hg]]]]]]]; [reflexivity|].
+    exfalso. rewrite Hd in Hc at 1 2. rewrite app_length in Hc. cbn [length] in Hc.
+    replace (length pre + S (length a') - length a' - 1)%nat with (length pre) in Hc by lia.
+    rewrite nth_error_app2, Nat.sub_diag in Hc by lia. cbn [nth_error] in Hc.
+    rewrite Hs, Hg in Hc. discriminate.
+  - reflexivity.
+Qed.
+
+Lemma skip_throw_witness :
+  sskip_at_impl 10 [0xD9; 5; 0x61] = AErr EParse [0x61] /\ skip_at_impl 10 [0xD9; 5; 0x61] = AErr EParse [5; 0x61] /\
+  len_field_cut 10 [0xD9; 5; 0x61] = true /\
+  sskip_at_impl 10 [0x92; 1; 0xC5; 0; 3; 0x61] = AErr EParse [0x61] /\
+  skip_at_impl 10 [0x92; 1; 0xC5; 0; 3; 0x61] = AErr EParse [0; 3; 0x61].
+Proof. vm_compute. repeat split; reflexivity. Qed.
+
+Theorem skip_throw_same_refuted : ~ (forall f d, sskip_at_impl f d = skip_at_impl f d).
+Proof.
+  intros H. destruct skip_throw_witness as [W1 [W2 _]]. specialize (H 10%nat [0xD9; 5; 0x61]).
+  rewrite W1, W2 in H. discriminate H.
+Qed.
+
+Lemma skip_throw_position K data : (8 <= K)%nat -> fits_streamoff data -> bytes_ok data ->
+  forall f d, Suffix data d -> wp K data (mps_skip_impl f) (st data d) (apost data (sskip_at_impl f d)).
+Proof. intros HK Hl Hb f d HS. apply wp_skip_impl_at; assumption. Qed.
+
+(* ---- a single function: on the in-memory reader, at any suffix ---- *)
+
+Section OnMem.
+  Variable K : nat.
+  Variable data : list N.
+  Hypothesis HK : (8 <= K)%nat.
+  Hypothesis Hlen : fits_streamoff data.
+  Hypothesis Hbytes : bytes_ok data.
+
+  Lemma memrel_start d : MemRel data (st data d) (st data d).
+  Proof. intros _. split; [reflexivity|]. cbn [st m_pos]. lia. Qed.
+
+  Lemma on_memr {A} (p : prog (sr A)) d (x : rres A) : wp K data p (st data d) (post data x) ->
+    exists a m', interp (memr_step K data) p (st data d) = Ok (a, m') /\ post data x a m'.
+  Proof.
+    intros H.
+    destruct (interp_wp K data (memr_step K data) (MemRel data) (memr_sim K data HK Hlen) p _ _ _ (memrel_start d) H) as
+      [a [s' [m' [E [HQ HR]]]]].
+    exists a, s'. split; [exact E|].
+    destruct x as [v r|r|e|]; cbn [post] in *; try exact HQ.
+    - destruct HQ as [Ha [Hm HSr]]. subst m'. destruct (HR eq_refl) as [-> _]. auto.
+    - destruct HQ as [Ha [Hm HSr]]. subst m'. destruct (HR eq_refl) as [-> _]. auto.
+  Qed.
+
+  Lemma on_memr_skip (p : prog (sr unit)) d (x : sres) : wp K data p (st data d) (spost data x) ->
+    exists a m', interp (memr_step K data) p (st data d) = Ok (a, m') /\ spost data x a m'.
+  Proof.
+    intros H.
+    destruct (interp_wp K data (memr_step K data) (MemRel data) (memr_sim K data HK Hlen) p _ _ _ (memrel_start d) H) as
+      [a [s' [m' [E [HQ HR]]]]].
+    exists a, s'. split; [exact E|].
+    destruct x as [r|e|]; cbn [spost] in *; try exact HQ.
+    destruct HQ as [Ha [Hm HSr]]. subst m'. destruct (HR eq_refl) as [-> _]. auto.
+  Qed.
+
+  Variable fuel : nat.
+  Variable o : opts.
+  Variable d : list N.
+  Hypothesis HS : Suffix data d.
+  Hypothesis Hf : (length d < fuel)%nat.
+
+  Notation run p := (interp (memr_step K data) p (st data d)).
+
+  Theorem mem_skip_value :
+    exists a m', run (mps_skip_value fuel) = Ok (a, m') /\ spost data (skip_value d) a m'.
+  Proof. apply on_memr_skip. apply wp_skip_value; assumption. Qed.
+
+  Theorem mem_read_int t :
+    exists a m', run (mps_read_int fuel o t) = Ok (a, m') /\ post data (read_int o t d) a m'.
+  Proof. apply on_memr. apply wp_read_int; assumption. Qed.
+
+  Theorem mem_read_nil :
+    exists a m', run (mps_read_nil fuel o) = Ok (a, m') /\ post data (read_nil o d) a m'.
+  Proof. apply on_memr. apply wp_read_nil; assumption. Qed.
+
+  Theorem mem_read_f32 narrow :
+    exists a m', run (mps_read_f32 narrow fuel o) = Ok (a, m') /\ post data (read_f32 narrow o d) a m'.
+  Proof. apply on_memr. apply wp_read_f32; assumption. Qed.
+
+  Theorem mem_read_f64 widen :
+    exists a m', run (mps_read_f64 widen fuel o) = Ok (a, m') /\ post data (read_f64 widen o d) a m'.
+  Proof. apply on_memr. apply wp_read_f64; assumption. Qed.
+
+  Theorem mem_read_str :
+    exists a m', run (mps_read_str fuel o) = Ok (a, m') /\ post data (read_str o d) a m'.
+  Proof. apply on_memr. apply wp_read_str; assumption. Qed.
+
+  Theorem mem_read_array_size :
+    exists a m', run (mps_read_array_size fuel o) = Ok (a, m') /\ post data (read_array_size o d) a m'.
+  Proof. apply on_memr. apply wp_read_array_size; assumption. Qed.
+
+  Theorem mem_read_map_size :
+    exists a m', run (mps_read_map_size fuel o) = Ok (a, m') /\ post data (read_map_size o d) a m'.
+  Proof. apply on_memr. apply wp_read_map_size; assumption. Qed.
+
+  Theorem mem_read_bin_size :
+    exists a m', run (mps_read_bin_size fuel o) = Ok (a, m') /\ post data (read_bin_size o d) a m'.
+  Proof. apply on_memr. apply wp_read_bin_size; assumption. Qed.
+
+  Theorem mem_read_binary :
+    exists a m', run mps_read_binary = Ok (a, m') /\ post data (read_binary d) a m'.
+  Proof. apply on_memr. apply wp_read_binary; assumption. Qed.
+
+  Theorem mem_read_ts :
+    exists a m', run (mps_read_ts fuel o) = Ok (a, m') /\ post data (read_ts o d) a m'.
+  Proof. apply on_memr. apply wp_read_ts; assumption. Qed.
+
+  Theorem mem_read_value_type :
+    exists a m', run mps_read_value_type = Ok (a, m') /\
+      post data (match read_value_type d with inl t => ROk t d | inr e => RErr e end) a m'.
+  Proof. apply on_memr. apply wp_read_value_type_post; assumption. Qed.
+End OnMem.
+
+(* the same, in the uniform shape of Properties_C10mp.v *)
+Lemma mem_read_bool K data : (8 <= K)%nat -> fits_streamoff data -> bytes_ok data ->
+  forall fuel o d, Suffix data d -> (length d < fuel)%nat ->
+  exists a m', interp (memr_step K data) (mps_read_int fuel o (mkIty false 1)) (st data d) = Ok (a, m') /\
+               post data (read_int o (mkIty false 1) d) a m'.
+Proof. intros HK Hl Hb fuel o d HS Hf. apply mem_read_int; assumption. Qed.
+
+Lemma mem_read_binary_c K data : (8 <= K)%nat -> fits_streamoff data -> bytes_ok data ->
+  forall d, Suffix data d ->
+  exists a m', interp (memr_step K data) mps_read_binary (st data d) = Ok (a, m') /\ post data (read_binary d) a m'.
+Proof. intros HK Hl _ d HS. apply mem_read_binary; assumption. Qed.
+
+Lemma mem_read_value_type_c K data : (8 <= K)%nat -> fits_streamoff data -> bytes_ok data ->
+  forall d, Suffix data d ->
+  exists a m', interp (memr_step K data) mps_read_value_type (st data d) = Ok (a, m') /\
+               post data (match read_value_type d with inl t => ROk t d | inr e => RErr e end) a m'.
+Proof. intros HK Hl _ d HS. apply mem_read_value_type; assumption. Qed.
+
+(* ---- read sequences ---- *)
+
+(* over any reader the reference simulates, started in a state related to the reference's start *)
+Theorem seq_any_reader (S : Type) (step : S -> bop -> outcome (bres * S)) (R : S -> mem -> Prop)
+  K data narrow widen fuel o ops :
+  (8 <= K)%nat -> fits_streamoff data -> bytes_ok data -> (length data < fuel)%nat ->
+  forallb (rop_ok data) ops = true ->
+  (forall s m op, R s m -> op_sizet op ->
+     exists r s' m', step s op = Ok (r, s') /\ mem_step K data m op r = Some m' /\ R s' m') ->
+  forall s0, R s0 mem_start ->
+  exists s', interp step (mps_seq narrow widen fuel o ops) s0 = Ok (str_run narrow widen data o ops, s').
+Proof.
+  intros HK Hl Hb Hf Hok Hsim s0 HR.
+  pose proof (wp_seq K data HK Hl Hb narrow widen fuel o Hf ops data (suffix_data data) Hok) as H.
+  rewrite st_data in H.
+  destruct (interp_wp K data step R Hsim _ s0 mem_start _ HR H) as [a [s' [m' [E [-> _]]]]].
+  exists s'. exact E.
+Qed.
+
+(* the in-memory reader *)
+Theorem seq_on_memory K data narrow widen fuel o ops :
+  (8 <= K)%nat -> fits_streamoff data -> bytes_ok data -> (length data < fuel)%nat ->
+  forallb (rop_ok data) ops = true ->
+  mps_run_mem narrow widen K data fuel o ops = Ok (str_run narrow widen data o ops).
+Proof.
+  intros HK Hl Hb Hf Hok. unfold mps_run_mem.
+  destruct (seq_any_reader mem (memr_step K data) (MemRel data) K data narrow widen fuel o ops HK Hl Hb Hf Hok
+              (memr_sim K data HK Hl) mem_start) as [s' E].
+  - intros _. split; [reflexivity|]. cbn. lia.
+  - rewrite E. reflexivity.
+Qed.
+
+(* C10, MsgPack: CMsgPackStreamReader over CBinaryStreamReader with chunk size K on a seekable stream
+   holding [data] answers every sequence of reads as CMsgPackStringReader on [data] *)
+Theorem seq_on_chunked_stream K data narrow widen fuel o ops :
+  (8 <= K)%nat -> fits_streamoff data -> bytes_ok data -> (length data < fuel)%nat ->
+  forallb (rop_ok data) ops = true ->
+  mps_run_bsr narrow widen K (stream_of data true) fuel o ops = Ok (str_run narrow widen data o ops).
+Proof.
+  intros HK Hl Hb Hf Hok. unfold mps_run_bsr.
+  assert (HK0 : (0 < K)%nat) by lia.
+  destruct (new_rel K HK0 data Hl true) as [HR Hs].
+  destruct (seq_any_reader bsr (bsr_step K) (BsrRel K data) K data narrow widen fuel o ops HK Hl Hb Hf Hok
+              (bsr_sim K data HK0 Hl) (bsr_new K (stream_of data true))) as [s' E].
+  - split; assumption.
+  - rewrite E. reflexivity.
+Qed.
+
+(* ---- where the hypotheses bite ---- *)
+
+(* chunk sizes below 8: GetValue<uint64_t> asks ReadSolidBlock for more than a chunk, which it refuses *)
+Definition no_narrow (x : N) : option N := Some x.
+Definition id_widen (x : N) : N := x.
+Definition u64doc : list N := [0xCF; 0; 0; 0; 0; 0; 0; 0; 1].
+Definition throw_all : opts := mkOpts PThrow PThrow.
+Definition skip_all : opts := mkOpts PSkip PSkip.
+
+Lemma small_chunk_witness :
+  mps_run_bsr no_narrow id_widen 4 (stream_of u64doc true) 10 throw_all [RdInt (mkIty false 64)] = Ok [AErrOf EParse] /\
+  str_run no_narrow id_widen u64doc throw_all [RdInt (mkIty false 64)] = [AOkAt (VInt 1) 9].
+Proof. vm_compute. split; reflexivity. Qed.
+
+Theorem seq_small_chunk_refuted :
+  ~ (forall K data narrow widen fuel o ops,
+       (0 < K)%nat -> fits_streamoff data -> bytes_ok data -> (length data < fuel)%nat ->
+       forallb (rop_ok data) ops = true ->
+       mps_run_bsr narrow widen K (stream_of data true) fuel o ops = Ok (str_run narrow widen data o ops)).
+Proof.
+  intros H. destruct small_chunk_witness as [W1 W2].
+  specialize (H 4%nat u64doc no_narrow id_widen 10%nat throw_all [RdInt (mkIty false 64)]).
+  rewrite W1, W2 in H.
+  assert (E : Ok [AErrOf EParse] = Ok [AOkAt (VInt 1) 9]).
+  { apply H.
+    - lia.
+    - unfold fits_streamoff. cbn. lia.
+    - unfold bytes_ok, u64doc. repeat constructor.
+    - cbn. lia.
+    - reflexivity. }
+  discriminate E.
+Qed.
+
+(* SetPosition beyond the end: the string reader throws std::invalid_argument, the stream reader's
+   void SetPosition drops the refusal of CBinaryStreamReader::SetPosition and returns normally *)
+Lemma setpos_beyond_witness :
+  mps_run_bsr no_narrow id_widen 8 (stream_of [0xC0] true) 10 throw_all [RdSetPos 2] = Ok [AOkAt VUnit 0] /\
+  str_run no_narrow id_widen [0xC0] throw_all [RdSetPos 2] = [AErrOf EInvalidArg].
+Proof. vm_compute. split; reflexivity. Qed.
+
+Theorem seq_setpos_beyond_refuted :
+  ~ (forall K data narrow widen fuel o ops,
+       (8 <= K)%nat -> fits_streamoff data -> bytes_ok data -> (length data < fuel)%nat ->
+       mps_run_bsr narrow widen K (stream_of data true) fuel o ops = Ok (str_run narrow widen data o ops)).
+Proof.
+  intros H. destruct setpos_beyond_witness as [W1 W2].
+  specialize (H 8%nat [0xC0] no_narrow id_widen 10%nat throw_all [RdSetPos 2]).
+  rewrite W1, W2 in H.
+  assert (E : Ok [AOkAt VUnit 0] = Ok [AErrOf EInvalidArg]).
+  { apply H.
+    - lia.
+    - unfold fits_streamoff. cbn. lia.
+    - unfold bytes_ok. repeat constructor.
+    - cbn. lia. }
+  discriminate E.
+Qed.
+
+(* ---- non-vacuity: values straddling chunk boundaries ---- *)
+
+(* K = 8: the 10 bytes of the str8 run through chunks 1, 2 and 3; the uint16 at offset 15 straddles
+   the boundary at 16; the float32 at 21 straddles 24; the timestamp's fixext4 header sits at 26..27
+   and is read after a SetPosition back into an earlier chunk (ReadValueType's seek back crosses the
+   boundary at 24 as well); the uint64 at 32 fills chunk 5 exactly *)
+Definition straddle_doc : list N :=
+  [0xA3; 0x61; 0x62; 0x63;  0xD9; 0x0A; 1; 2;  3; 4; 5; 6; 7; 8; 9; 10;  0xCD; 0x01; 0x00;
+   0x92; 0x01; 0xC0;  0xCA; 0x3F; 0x80; 0x00; 0x00;  0xD6; 0xFF; 0; 0; 0; 5;  0xCF; 0; 0; 0; 0; 0; 0; 0; 1].
+Definition straddle_ops : list rop :=
+  [RdStr; RdStr; RdInt (mkIty false 8); RdSkip; RdType; RdF64; RdSetPos 22; RdF32; RdType; RdTs;
+   RdInt (mkIty false 64); RdIsEnd; RdNil].
+
+Example straddle_run :
+  str_run no_narrow id_widen straddle_doc skip_all straddle_ops =
+    [AOkAt (VBytes [0x61; 0x62; 0x63]) 4; AOkAt (VBytes [1; 2; 3; 4; 5; 6; 7; 8; 9; 10]) 16; ANotAt 19;
+     AOkAt VUnit 22; AOkAt (VType TFloat) 22; AOkAt (VNum 0x3F800000) 27; AOkAt VUnit 22;
+     AOkAt (VNum 0x3F800000) 27; AOkAt (VType TTimestamp) 27; AOkAt (VTs 5 0) 33; AOkAt (VInt 1) 42;
+     AOkAt (VBool true) 42; AErrOf EParse] /\
+  mps_run_bsr no_narrow id_widen 8 (stream_of straddle_doc true) 100 skip_all straddle_ops =
+    Ok (str_run no_narrow id_widen straddle_doc skip_all straddle_ops) /\
+  mps_run_bsr no_narrow id_widen 9 (stream_of straddle_doc true) 100 skip_all straddle_ops =
+    Ok (str_run no_narrow id_widen straddle_doc skip_all straddle_ops) /\
+  mps_run_mem no_narrow id_widen 8 straddle_doc 100 skip_all straddle_ops =
+    Ok (str_run no_narrow id_widen straddle_doc skip_all straddle_ops).
+Proof. vm_compute. repeat split; reflexivity. Qed.
+
+(* a truncated document: the string's bytes end inside the third chunk *)
+Example straddle_truncated :
+  mps_run_bsr no_narrow id_widen 8 (stream_of (firstn 13 straddle_doc) true) 100 skip_all [RdStr; RdStr; RdNil] =
+    Ok [AOkAt (VBytes [0x61; 0x62; 0x63]) 4; AErrOf EParse] /\
+  str_run no_narrow id_widen (firstn 13 straddle_doc) skip_all [RdStr; RdStr; RdNil] =
+    [AOkAt (VBytes [0x61; 0x62; 0x63]) 4; AErrOf EParse].
+Proof. vm_compute. split; reflexivity. Qed.
